@@ -170,6 +170,26 @@ impl Src for RandSrc {
     }
 }
 
+/// recording Hasher: every write is stored with a type tag, in call order (capacity 32 bytes)
+#[derive(Clone, Copy, PartialEq, Eq, Debug)]
+pub struct Rec { pub buf: [u8; 32], pub n: u8, pub overflow: bool }
+impl Rec {
+    pub fn new() -> Self { Rec { buf: [0; 32], n: 0, overflow: false } }
+    #[inline(always)]
+    fn push(&mut self, b: u8) { if (self.n as usize) < 32 { self.buf[self.n as usize] = b; self.n += 1; } else { self.overflow = true; } }
+}
+impl core::hash::Hasher for Rec {
+    fn finish(&self) -> u64 { 0 }
+    fn write(&mut self, bytes: &[u8]) { self.push(0xF0); for b in bytes { self.push(*b); } }
+    fn write_u8(&mut self, v: u8) { self.push(0xF1); self.push(v); }
+    fn write_u16(&mut self, v: u16) { self.push(0xF2); let b = v.to_le_bytes(); self.push(b[0]); self.push(b[1]); }
+    fn write_u32(&mut self, v: u32) { self.push(0xF4); let b = v.to_le_bytes(); self.push(b[0]); self.push(b[1]); self.push(b[2]); self.push(b[3]); }
+    fn write_u64(&mut self, v: u64) { self.push(0xF8); let b = v.to_le_bytes(); self.push(b[0]); self.push(b[1]); self.push(b[2]); self.push(b[3]); self.push(b[4]); self.push(b[5]); self.push(b[6]); self.push(b[7]); }
+    fn write_usize(&mut self, v: usize) { self.push(0xF9); let b = (v as u64).to_le_bytes(); self.push(b[0]); self.push(b[1]); self.push(b[2]); self.push(b[3]); self.push(b[4]); self.push(b[5]); self.push(b[6]); self.push(b[7]); }
+    fn write_isize(&mut self, v: isize) { self.push(0xFA); let b = (v as i64).to_le_bytes(); self.push(b[0]); self.push(b[1]); self.push(b[2]); self.push(b[3]); self.push(b[4]); self.push(b[5]); self.push(b[6]); self.push(b[7]); }
+    fn write_i8(&mut self, v: i8) { self.push(0xE1); self.push(v as u8); }
+}
+
 pub fn chk<T: core::fmt::Debug>(out: &mut Vec<(String, String, String)>, label: &str, observed: T, expected: T) {
     out.push((label.to_string(), format!("{:?}", observed), format!("{:?}", expected)));
 }
@@ -190,6 +210,7 @@ pub open spec fn cmp_int(a: int, b: int) -> Ordering { if a < b { Ordering::Less
 // ---- assumed contracts: hashing -------------------------------------------------
 pub uninterp spec fn h_tr<H>(h: &H) -> int;
 pub uninterp spec fn h_push(t: int, item: int) -> int;
+pub uninterp spec fn h_len(t: int) -> int;
 pub uninterp spec fn hv_u8(v: u8) -> int;
 pub uninterp spec fn hv_u16(v: u16) -> int;
 pub uninterp spec fn hv_u32(v: u32) -> int;
